@@ -604,4 +604,444 @@ theorem bclaim_apply {k : Nat} (hA : AClaim k) : BClaim (k + 1) "apply" := by
   · exact HeapIn.get hrel.hok r
   · exact vOk_listToArray c xs (hvs c hc) hl
 
+/-! ## `map` -/
+
+/-- as `BOk`, for a computation that returns a list of values -/
+def BOkL (m : Nat → Nat) (s : St) (rs : Ref.St) (env : Nat) (D : List (Option Val)) (run : Nat → Except Fault (List Val) × St)
+    (res : Ref.R (List Val)) : Prop :=
+  match res with
+  | .ok vs' rs' => ∃ (M : Nat) (s' : St) (m' : Nat → Nat) (vs : List Val),
+      (∀ fuel, M ≤ fuel → run fuel = (.ok vs, inBuiltin s' D))
+      ∧ s'.pc = s.pc ∧ vs' = vs.map (trf m') ∧ RelF m' s' rs' env
+      ∧ MExt s m m' ∧ RExt rs rs' ∧ FrameF s s' ∧ ∀ v ∈ vs, VOk m' s' rs' v
+  | .err rs' => ∃ M, ∀ fuel, M ≤ fuel → ∃ se, run fuel = (.error .err, se) ∧ se.trace = rs'.trace
+  | .timeout => True
+  | .brk _ _ => False
+  | .cont _ _ => False
+
+def MArrClaim (n : Nat) : Prop :=
+  ∀ (m : Nat → Nat) (s : St) (rs : Ref.St) (env : Nat) (fv : Val) (r i cnt : Nat) (D : List (Option Val)), RelF m s rs env →
+    VOk m s rs fv → isFunction fv = true →
+    BOkL m s rs env D (fun fuel => (VM.mapArr fuel fv r i cnt).run (inBuiltin s D)) (Ref.mapArr n (trf m fv) r i cnt rs)
+
+def MListClaim (n : Nat) : Prop :=
+  ∀ (m : Nat → Nat) (s : St) (rs : Ref.St) (env : Nat) (fv l : Val) (D : List (Option Val)), RelF m s rs env →
+    VOk m s rs fv → isFunction fv = true → VOk m s rs l →
+    BOk m s rs env D (fun fuel => (VM.mapList fuel fv l).run (inBuiltin s D)) (Ref.mapList n (trf m fv) (trf m l) rs)
+
+theorem vm_mapArr_succ (fuel : Nat) (f : Val) (r i n : Nat) (s : St) :
+    (VM.mapArr (fuel + 1) f r i n).run s =
+      if i ≥ n then (.ok [], s) else
+      match (VM.applyFn fuel f [(s.heap.get r).getD i .nil]).run s with
+      | (.ok v, s1) =>
+        (match (VM.mapArr fuel f r (i + 1) n).run s1 with
+         | (.ok vs, s2) => (.ok (v :: vs), s2)
+         | (.error e, s2) => (.error e, s2))
+      | (.error e, s1) => (.error e, s1) := by
+  rw [VM.mapArr]
+  by_cases h : i ≥ n
+  · simp only [h, if_true, run_pure]
+  · simp only [h, if_false, run_bind, run_get]
+    rcases (VM.applyFn fuel f [(s.heap.get r).getD i .nil]).run s with ⟨r1, s1⟩
+    cases r1 with
+    | error e => rfl
+    | ok v =>
+      simp only []
+      rcases (VM.mapArr fuel f r (i + 1) n).run s1 with ⟨r2, s2⟩
+      cases r2 with
+      | error e => rfl
+      | ok vs => rfl
+
+theorem getD_map_tr (m : Nat → Nat) (l : List Val) (i : Nat) : (l.map (trf m)).getD i .nil = trf m (l.getD i .nil) := by
+  simp only [List.getD_eq_getElem?_getD, List.getElem?_map]
+  cases l[i]? <;> rfl
+
+theorem vOk_getD {m s rs} (l : List Val) (i : Nat) (h : ∀ x ∈ l, VOk m s rs x) : VOk m s rs (l.getD i .nil) := by
+  simp only [List.getD_eq_getElem?_getD]
+  cases hl : l[i]? with
+  | none => exact vOk_lit .nil (fun _ _ _ => rfl)
+  | some x => exact h x (List.mem_of_getElem? hl)
+
+theorem marr_succ {j : Nat} (hA : AClaim j) (hM : MArrClaim j) : MArrClaim (j + 1) := by
+  intro m s rs env fv r i cnt D hrel hfv hfn
+  rw [Ref.mapArr]
+  by_cases hi : i ≥ cnt
+  · simp only [hi, if_true]
+    refine ⟨1, s, m, [], fun fuel hf => ?_, rfl, rfl, hrel, MExt.refl _ _, RExt.refl _, FrameF.refl _, fun v hv => by cases hv⟩
+    obtain ⟨f, rfl⟩ : ∃ f, fuel = f + 1 := ⟨fuel - 1, by omega⟩
+    show (VM.mapArr (f + 1) fv r i cnt).run (inBuiltin s D) = _
+    rw [vm_mapArr_succ, if_pos hi]
+  · simp only [hi, if_false]
+    have hx : (rs.heap.get r).getD i .nil = trf m ((s.heap.get r).getD i .nil) := by
+      rw [hrel.heap, trHeap_get, getD_map_tr]
+    have hxok : VOk m s rs ((s.heap.get r).getD i .nil) := vOk_getD _ _ (HeapIn.get hrel.hok r)
+    have ha := hA m s rs env fv [(s.heap.get r).getD i .nil] D hrel hfv hfn
+      (fun v hv => by rw [List.mem_singleton.mp hv]; exact hxok)
+    rw [hx]
+    simp only [List.map_cons, List.map_nil] at ha
+    have hunf : ∀ fuel, (VM.mapArr (fuel + 1) fv r i cnt).run (inBuiltin s D) =
+        match (VM.applyFn fuel fv [(s.heap.get r).getD i .nil]).run (inBuiltin s D) with
+        | (.ok v, s1) =>
+          (match (VM.mapArr fuel fv r (i + 1) cnt).run s1 with
+           | (.ok vs, s2) => (.ok (v :: vs), s2)
+           | (.error e, s2) => (.error e, s2))
+        | (.error e, s1) => (.error e, s1) := fun fuel => by rw [vm_mapArr_succ, if_neg hi]; rfl
+    cases h1 : Ref.applyValues j (trf m fv) [trf m ((s.heap.get r).getD i .nil)] rs with
+    | ok v' rs1 =>
+      rw [h1] at ha
+      obtain ⟨M1, s1, m1, v, hr1, hpc1, hv1, rel1, hm1, ext1, fr1, hcl1⟩ := ha
+      simp only
+      have hr1 : ∀ fuel, M1 ≤ fuel → (VM.applyFn fuel fv [(s.heap.get r).getD i .nil]).run (inBuiltin s D)
+          = (.ok v, inBuiltin s1 D) := hr1
+      have hfv1 : VOk m1 s1 rs1 fv := VOk.ext hfv fr1 ext1 hm1
+      have ih := hM m1 s1 rs1 env fv r (i + 1) cnt D rel1 hfv1 hfn
+      rw [VOk.tr_ext hfv hm1] at ih
+      cases h2 : Ref.mapArr j (trf m fv) r (i + 1) cnt rs1 with
+      | ok vs' rs2 =>
+        rw [h2] at ih
+        obtain ⟨M2, s2, m2, vs, hr2, hpc2, hvs2, rel2, hm2, ext2, fr2, hcl2⟩ := ih
+        have hr2 : ∀ fuel, M2 ≤ fuel → (VM.mapArr fuel fv r (i + 1) cnt).run (inBuiltin s1 D) = (.ok vs, inBuiltin s2 D) := hr2
+        refine ⟨max M1 M2 + 1, s2, m2, v :: vs, fun fuel hf => ?_, by rw [hpc2, hpc1], ?_, rel2, hm1.trans hm2 fr1.fnsLen,
+          ext1.trans ext2, fr1.trans fr2, fun w hw => ?_⟩
+        · obtain ⟨f, rfl⟩ : ∃ f, fuel = f + 1 := ⟨fuel - 1, by omega⟩
+          show (VM.mapArr (f + 1) fv r i cnt).run (inBuiltin s D) = _
+          rw [hunf f, hr1 f (by omega)]
+          simp only
+          rw [hr2 f (by omega)]
+        · rw [List.map_cons, hv1, hvs2, VOk.tr_ext hcl1 hm2]
+        · rcases List.mem_cons.mp hw with rfl | hw
+          · exact VOk.ext hcl1 fr2 ext2 hm2
+          · exact hcl2 w hw
+      | err rs2 =>
+        rw [h2] at ih
+        obtain ⟨M2, hr2⟩ := ih
+        refine ⟨max M1 M2 + 1, fun fuel hf => ?_⟩
+        obtain ⟨f, rfl⟩ : ∃ f, fuel = f + 1 := ⟨fuel - 1, by omega⟩
+        obtain ⟨se, hse, htr⟩ := hr2 f (by omega)
+        have hse : (VM.mapArr f fv r (i + 1) cnt).run (inBuiltin s1 D) = (.error .err, se) := hse
+        exact ⟨se, by show (VM.mapArr (f + 1) fv r i cnt).run (inBuiltin s D) = _
+                      rw [hunf f, hr1 f (by omega)]; simp only; rw [hse], htr⟩
+      | timeout => trivial
+      | brk l rs2 => rw [h2] at ih; exact ih.elim
+      | cont l rs2 => rw [h2] at ih; exact ih.elim
+    | err rs1 =>
+      rw [h1] at ha
+      obtain ⟨M1, hr1⟩ := ha
+      refine ⟨M1 + 1, fun fuel hf => ?_⟩
+      obtain ⟨f, rfl⟩ : ∃ f, fuel = f + 1 := ⟨fuel - 1, by omega⟩
+      obtain ⟨se, hse, htr⟩ := hr1 f (by omega)
+      have hse : (VM.applyFn f fv [(s.heap.get r).getD i .nil]).run (inBuiltin s D) = (.error .err, se) := hse
+      exact ⟨se, by show (VM.mapArr (f + 1) fv r i cnt).run (inBuiltin s D) = _; rw [hunf f, hse], htr⟩
+    | timeout => trivial
+    | brk l rs1 => rw [h1] at ha; exact ha.elim
+    | cont l rs1 => rw [h1] at ha; exact ha.elim
+
+theorem vm_mapList_pair (fuel : Nat) (f a b : Val) (s : St) :
+    (VM.mapList (fuel + 1) f (.pair a b)).run s =
+      match (VM.applyFn fuel f [a]).run s with
+      | (.ok v, s1) =>
+        (match (VM.mapList fuel f b).run s1 with
+         | (.ok t, s2) => (.ok (.pair v t), s2)
+         | (.error e, s2) => (.error e, s2))
+      | (.error e, s1) => (.error e, s1) := by
+  rw [VM.mapList]
+  simp only [run_bind]
+  rcases (VM.applyFn fuel f [a]).run s with ⟨r1, s1⟩
+  cases r1 with
+  | error e => rfl
+  | ok v =>
+    simp only []
+    rcases (VM.mapList fuel f b).run s1 with ⟨r2, s2⟩
+    cases r2 with
+    | error e => rfl
+    | ok vs => rfl
+
+theorem mlist_succ {j : Nat} (hA : AClaim j) (hM : MListClaim j) : MListClaim (j + 1) := by
+  intro m s rs env fv l D hrel hfv hfn hl
+  have herr : ∀ (hn : l ≠ .nil) (hp : ∀ a b, l ≠ .pair a b),
+      BOk m s rs env D (fun fuel => (VM.mapList fuel fv l).run (inBuiltin s D)) (.err rs) := by
+    intro hn hp
+    refine ⟨1, fun fuel hf => ⟨inBuiltin s D, ?_, hrel.trace⟩⟩
+    obtain ⟨f, rfl⟩ : ∃ f, fuel = f + 1 := ⟨fuel - 1, by omega⟩
+    show (VM.mapList (f + 1) fv l).run (inBuiltin s D) = _
+    rw [VM.mapList.eq_def]
+    cases l with
+    | nil => exact absurd rfl hn
+    | pair a b => exact absurd rfl (hp a b)
+    | _ => rfl
+  cases l with
+  | nil =>
+    show BOk m s rs env D _ (Ref.mapList (j + 1) (trf m fv) .nil rs)
+    rw [Ref.mapList]
+    refine ⟨1, s, m, .nil, fun fuel hf => ?_, rfl, rfl, hrel, MExt.refl _ _, RExt.refl _, FrameF.refl _, vOk_lit .nil (fun _ _ _ => rfl)⟩
+    obtain ⟨f, rfl⟩ : ∃ f, fuel = f + 1 := ⟨fuel - 1, by omega⟩
+    show (VM.mapList (f + 1) fv .nil).run (inBuiltin s D) = _
+    rw [VM.mapList]; rfl
+  | pair a b =>
+    show BOk m s rs env D _ (Ref.mapList (j + 1) (trf m fv) (.pair (trf m a) (trf m b)) rs)
+    rw [Ref.mapList]
+    have hab := ValIn.pair hl
+    have ha := hA m s rs env fv [a] D hrel hfv hfn (fun v hv => by rw [List.mem_singleton.mp hv]; exact hab.1)
+    simp only [List.map_cons, List.map_nil] at ha
+    cases h1 : Ref.applyValues j (trf m fv) [trf m a] rs with
+    | ok v' rs1 =>
+      rw [h1] at ha
+      obtain ⟨M1, s1, m1, v, hr1, hpc1, hv1, rel1, hm1, ext1, fr1, hcl1⟩ := ha
+      have hr1 : ∀ fuel, M1 ≤ fuel → (VM.applyFn fuel fv [a]).run (inBuiltin s D) = (.ok v, inBuiltin s1 D) := hr1
+      simp only
+      have hfv1 : VOk m1 s1 rs1 fv := VOk.ext hfv fr1 ext1 hm1
+      have hb1 : VOk m1 s1 rs1 b := VOk.ext hab.2 fr1 ext1 hm1
+      have ih := hM m1 s1 rs1 env fv b D rel1 hfv1 hfn hb1
+      rw [VOk.tr_ext hfv hm1, VOk.tr_ext hab.2 hm1] at ih
+      cases h2 : Ref.mapList j (trf m fv) (trf m b) rs1 with
+      | ok t' rs2 =>
+        rw [h2] at ih
+        obtain ⟨M2, s2, m2, t, hr2, hpc2, ht2, rel2, hm2, ext2, fr2, hcl2⟩ := ih
+        have hr2 : ∀ fuel, M2 ≤ fuel → (VM.mapList fuel fv b).run (inBuiltin s1 D) = (.ok t, inBuiltin s2 D) := hr2
+        refine ⟨max M1 M2 + 1, s2, m2, .pair v t, fun fuel hf => ?_, by rw [hpc2, hpc1], ?_, rel2, hm1.trans hm2 fr1.fnsLen,
+          ext1.trans ext2, fr1.trans fr2, valIn_pair (VOk.ext hcl1 fr2 ext2 hm2) hcl2⟩
+        · obtain ⟨f, rfl⟩ : ∃ f, fuel = f + 1 := ⟨fuel - 1, by omega⟩
+          show (VM.mapList (f + 1) fv (.pair a b)).run (inBuiltin s D) = _
+          rw [vm_mapList_pair, hr1 f (by omega)]
+          simp only
+          rw [hr2 f (by omega)]
+        · show Val.pair v' t' = .pair (trf m2 v) (trf m2 t)
+          rw [hv1, ht2, VOk.tr_ext hcl1 hm2]
+      | err rs2 =>
+        rw [h2] at ih
+        obtain ⟨M2, hr2⟩ := ih
+        refine ⟨max M1 M2 + 1, fun fuel hf => ?_⟩
+        obtain ⟨f, rfl⟩ : ∃ f, fuel = f + 1 := ⟨fuel - 1, by omega⟩
+        obtain ⟨se, hse, htr⟩ := hr2 f (by omega)
+        have hse : (VM.mapList f fv b).run (inBuiltin s1 D) = (.error .err, se) := hse
+        exact ⟨se, by show (VM.mapList (f + 1) fv (.pair a b)).run (inBuiltin s D) = _
+                      rw [vm_mapList_pair, hr1 f (by omega)]; simp only; rw [hse], htr⟩
+      | timeout => trivial
+      | brk l rs2 => rw [h2] at ih; exact ih.elim
+      | cont l rs2 => rw [h2] at ih; exact ih.elim
+    | err rs1 =>
+      rw [h1] at ha
+      obtain ⟨M1, hr1⟩ := ha
+      refine ⟨M1 + 1, fun fuel hf => ?_⟩
+      obtain ⟨f, rfl⟩ : ∃ f, fuel = f + 1 := ⟨fuel - 1, by omega⟩
+      obtain ⟨se, hse, htr⟩ := hr1 f (by omega)
+      have hse : (VM.applyFn f fv [a]).run (inBuiltin s D) = (.error .err, se) := hse
+      exact ⟨se, by show (VM.mapList (f + 1) fv (.pair a b)).run (inBuiltin s D) = _; rw [vm_mapList_pair, hse], htr⟩
+    | timeout => trivial
+    | brk l rs1 => rw [h1] at ha; exact ha.elim
+    | cont l rs1 => rw [h1] at ha; exact ha.elim
+  | bool x =>
+    show BOk m s rs env D _ (Ref.mapList (j + 1) (trf m fv) (.bool x) rs)
+    rw [Ref.mapList.eq_def]
+    exact herr (fun h => by cases h) (fun _ _ h => by cases h)
+  | int x =>
+    show BOk m s rs env D _ (Ref.mapList (j + 1) (trf m fv) (.int x) rs)
+    rw [Ref.mapList.eq_def]
+    exact herr (fun h => by cases h) (fun _ _ h => by cases h)
+  | str x =>
+    show BOk m s rs env D _ (Ref.mapList (j + 1) (trf m fv) (.str x) rs)
+    rw [Ref.mapList.eq_def]
+    exact herr (fun h => by cases h) (fun _ _ h => by cases h)
+  | arr x =>
+    show BOk m s rs env D _ (Ref.mapList (j + 1) (trf m fv) (.arr x) rs)
+    rw [Ref.mapList.eq_def]
+    exact herr (fun h => by cases h) (fun _ _ h => by cases h)
+  | fn x =>
+    show BOk m s rs env D _ (Ref.mapList (j + 1) (trf m fv) (.fn (m x)) rs)
+    rw [Ref.mapList.eq_def]
+    exact herr (fun h => by cases h) (fun _ _ h => by cases h)
+  | builtin x =>
+    show BOk m s rs env D _ (Ref.mapList (j + 1) (trf m fv) (.builtin x) rs)
+    rw [Ref.mapList.eq_def]
+    exact herr (fun h => by cases h) (fun _ _ h => by cases h)
+  | lazy x =>
+    show BOk m s rs env D _ (Ref.mapList (j + 1) (trf m fv) (.lazy x) rs)
+    rw [Ref.mapList.eq_def]
+    exact herr (fun h => by cases h) (fun _ _ h => by cases h)
+  | mark x =>
+    show BOk m s rs env D _ (Ref.mapList (j + 1) (trf m fv) (.mark x) rs)
+    rw [Ref.mapList.eq_def]
+    exact herr (fun h => by cases h) (fun _ _ h => by cases h)
+  | sym x =>
+    show BOk m s rs env D _ (Ref.mapList (j + 1) (trf m fv) (.sym x) rs)
+    rw [Ref.mapList.eq_def]
+    exact herr (fun h => by cases h) (fun _ _ h => by cases h)
+
+theorem ref_applyFn_map (k : Nat) (vs : List Val) (rs : Ref.St) :
+    Ref.applyFn (k + 1) (.builtin "map") vs rs =
+      mapSpec vs (.err rs)
+        (fun f r => match Ref.mapArr k f r 0 (rs.heap.get r).length rs with
+          | .ok ws s => .ok (s.heap.alloc ws).1 { s with heap := (s.heap.alloc ws).2 }
+          | .err s => .err s | .brk l s => .brk l s | .cont l s => .cont l s | .timeout => .timeout)
+        (fun f l => Ref.mapList k f l rs) := by
+  rw [Ref.applyFn.eq_def]
+  simp only []
+  rw [if_neg (show ¬ "map" = "trace" by decide), if_neg (show ¬ "map" = "probe" by decide),
+    if_neg (show ¬ "map" = "force" by decide), if_neg (show ¬ "map" = "substitute" by decide),
+    if_neg (show ¬ "map" = "apply" by decide), if_pos True.intro]
+  unfold mapSpec
+  rcases vs with _ | ⟨f, _ | ⟨c, _ | ⟨d, r⟩⟩⟩
+  · rfl
+  · rfl
+  · by_cases hf : (!isFunction f) = true
+    · simp only [hf, if_true]
+    · simp only [hf, if_false, Bool.false_eq_true]
+      cases c with
+      | arr r => simp only []; cases Ref.mapArr k f r 0 (rs.heap.get r).length rs <;> rfl
+      | _ => rfl
+  · rfl
+
+/-- the array case of `map` on the machine: the results are collected and stored in a new array -/
+def vmMapArr (fuel : Nat) (f : Val) (r : Nat) (s : St) : Except Fault Val × St :=
+  match (VM.mapArr fuel f r 0 (s.heap.get r).length).run s with
+  | (.ok ws, s2) => (.ok (s2.heap.alloc ws).1, { s2 with heap := (s2.heap.alloc ws).2 })
+  | (.error e, s2) => (.error e, s2)
+
+theorem run_builtin_map (fuel : Nat) (vs : List Val) (s : St) :
+    (builtin (fuel + 1) "map" vs).run s =
+      mapSpec vs (.error .err, s) (fun f r => vmMapArr fuel f r s) (fun f l => (VM.mapList fuel f l).run s) := by
+  rw [builtin.eq_def]
+  simp only []
+  rw [if_neg (show ¬ "map" = "trace" by decide), if_neg (show ¬ "map" = "probe" by decide),
+    if_neg (show ¬ "map" = "force" by decide), if_neg (show ¬ "map" = "substitute" by decide),
+    if_neg (show ¬ "map" = "apply" by decide), if_pos True.intro]
+  unfold mapSpec
+  rcases vs with _ | ⟨f, _ | ⟨c, _ | ⟨d, r⟩⟩⟩
+  · rfl
+  · rfl
+  · by_cases hf : (!isFunction f) = true
+    · simp only [hf, if_true]; rfl
+    · simp only [hf, if_false, Bool.false_eq_true]
+      cases c with
+      | arr r =>
+        simp only [run_bind, run_get, vmMapArr]
+        rcases (VM.mapArr fuel f r 0 (s.heap.get r).length).run s with ⟨r1, s1⟩
+        cases r1 with
+        | error e => rfl
+        | ok ws => simp only [run_set, run_pure]
+      | pair a b => rfl
+      | _ => rfl
+  · rfl
+
+theorem mapSpec_fun {α β} (vs : List Val) (e : β → α) (oa : Val → Nat → β → α) (ol : Val → Val → β → α) (x : β) :
+    mapSpec vs e oa ol x = mapSpec vs (e x) (fun f r => oa f r x) (fun f l => ol f l x) := by
+  unfold mapSpec
+  rcases vs with _ | ⟨fv, _ | ⟨c, _ | ⟨d, r⟩⟩⟩
+  · rfl
+  · rfl
+  · by_cases hfn : (!isFunction fv) = true
+    · simp only [hfn, if_true]
+    · simp only [hfn, if_false, Bool.false_eq_true]
+      cases c <;> rfl
+  · rfl
+
+theorem mapSpec_rel {α β} (P : α → β → Prop) (m : Nat → Nat) (vs : List Val)
+    (e : α) (e' : β) (oa : Val → Nat → α) (oa' : Val → Nat → β) (ol : Val → Val → α) (ol' : Val → Val → β) (he : P e e')
+    (harr : ∀ fv r, fv ∈ vs → isFunction fv = true → P (oa fv r) (oa' (trf m fv) r))
+    (hlist : ∀ fv l, fv ∈ vs → l ∈ vs → isFunction fv = true → P (ol fv l) (ol' (trf m fv) (trf m l))) :
+    P (mapSpec vs e oa ol) (mapSpec (vs.map (trf m)) e' oa' ol') := by
+  unfold mapSpec
+  rcases vs with _ | ⟨fv, _ | ⟨c, _ | ⟨d, r⟩⟩⟩
+  · exact he
+  · exact he
+  · simp only [List.map_cons, List.map_nil, isFunction_tr]
+    by_cases hfn : (!isFunction fv) = true
+    · simp only [hfn, if_true]; exact he
+    · simp only [hfn, if_false, Bool.false_eq_true]
+      have hfn' : isFunction fv = true := by simpa using hfn
+      cases c with
+      | arr r => exact harr fv r (by simp) hfn'
+      | pair a b => exact hlist fv (.pair a b) (by simp) (by simp) hfn'
+      | _ => exact he
+  · exact he
+
+/-- `map` on evaluated arguments -/
+theorem bclaim_map {k : Nat} (hMA : MArrClaim k) (hML : MListClaim k) : BClaim (k + 1) "map" := by
+  intro m s rs env vs D hrel hvs
+  rw [ref_applyFn_map]
+  refine BOk.shift (run := fun fuel => mapSpec vs (.error .err, inBuiltin s D) (fun fv r => vmMapArr fuel fv r (inBuiltin s D))
+    (fun fv l => (VM.mapList fuel fv l).run (inBuiltin s D))) (fun fuel => run_builtin_map fuel vs _) ?_
+  have hfun : (fun fuel => mapSpec vs (.error .err, inBuiltin s D) (fun fv r => vmMapArr fuel fv r (inBuiltin s D))
+        (fun fv l => (VM.mapList fuel fv l).run (inBuiltin s D)))
+      = mapSpec vs (fun _ => (.error .err, inBuiltin s D)) (fun fv r fuel => vmMapArr fuel fv r (inBuiltin s D))
+        (fun fv l fuel => (VM.mapList fuel fv l).run (inBuiltin s D)) := by
+    funext fuel; rw [mapSpec_fun]
+  rw [hfun]
+  refine mapSpec_rel (fun run res => BOk m s rs env D run res) m vs _ _ _ _ _ _
+    ⟨0, fun fuel _ => ⟨inBuiltin s D, rfl, hrel.trace⟩⟩ ?_ ?_
+  · intro fv r hfv hfn
+    have hlen : (rs.heap.get r).length = (s.heap.get r).length := by rw [hrel.heap, trHeap_get, List.length_map]
+    rw [hlen]
+    have ih := hMA m s rs env fv r 0 (s.heap.get r).length D hrel (hvs fv hfv) hfn
+    cases h1 : Ref.mapArr k (trf m fv) r 0 (s.heap.get r).length rs with
+    | ok ws' rs1 =>
+      rw [h1] at ih
+      obtain ⟨M1, s1, m1, ws, hr1, hpc1, hws, rel1, hm1, ext1, fr1, hcl1⟩ := ih
+      have hr1 : ∀ fuel, M1 ≤ fuel → (VM.mapArr fuel fv r 0 (s.heap.get r).length).run (inBuiltin s D) = (.ok ws, inBuiltin s1 D) := hr1
+      simp only
+      have hal := trHeap_alloc m1 id id s1.heap ws
+      have hheap2 : (rs1.heap.alloc ws').2 = trHeap m1 id id (s1.heap.alloc ws).2 := by
+        rw [rel1.heap, hws, hal]
+      have hv2 : (rs1.heap.alloc ws').1 = trf m1 (s1.heap.alloc ws).1 := by
+        rw [rel1.heap, hws, hal]
+      have hhok : HOk m1 s1 rs1 (s1.heap.alloc ws).2 := heapIn_alloc rel1.hok ws hcl1
+      have hrelF : RelF m1 { s1 with heap := (s1.heap.alloc ws).2 } { rs1 with heap := (rs1.heap.alloc ws').2 } env :=
+        rel1.of_same rfl rfl rfl rfl rfl rfl hheap2 rel1.trace hhok
+      have hfrF : FrameF s1 { s1 with heap := (s1.heap.alloc ws).2 } :=
+        ⟨⟨rfl, rfl, rfl, rfl, Nat.le_refl _, fun _ _ => rfl, Nat.le_refl _, fun _ _ => rfl⟩, Nat.le_refl _, fun _ _ => rfl⟩
+      have hrext : RExt rs1 { rs1 with heap := (rs1.heap.alloc ws').2 } := ⟨fun i fr hf => ⟨fr, hf, rfl⟩, fun _ _ hc => hc⟩
+      refine ⟨M1, { s1 with heap := (s1.heap.alloc ws).2 }, m1, (s1.heap.alloc ws).1, fun fuel hf => ?_, hpc1, hv2, hrelF, hm1,
+        ext1.trans hrext, fr1.trans hfrF, ?_⟩
+      · show vmMapArr fuel fv r (inBuiltin s D) = _
+        unfold vmMapArr
+        show (match (VM.mapArr fuel fv r 0 (s.heap.get r).length).run (inBuiltin s D) with
+          | (.ok ws, s2) => _ | (.error e, s2) => _) = _
+        rw [hr1 fuel hf]
+        rfl
+      · have : (s1.heap.alloc ws).1 = .arr s1.heap.arrs.length := by simp [DataHeap.alloc]
+        rw [this]
+        exact valIn_of_const (fun _ _ _ => rfl)
+    | err rs1 =>
+      rw [h1] at ih
+      obtain ⟨M1, hr1⟩ := ih
+      refine ⟨M1, fun fuel hf => ?_⟩
+      obtain ⟨se, hse, htr⟩ := hr1 fuel hf
+      have hse : (VM.mapArr fuel fv r 0 (s.heap.get r).length).run (inBuiltin s D) = (.error .err, se) := hse
+      refine ⟨se, ?_, htr⟩
+      show vmMapArr fuel fv r (inBuiltin s D) = _
+      unfold vmMapArr
+      show (match (VM.mapArr fuel fv r 0 (s.heap.get r).length).run (inBuiltin s D) with
+        | (.ok ws, s2) => _ | (.error e, s2) => _) = _
+      rw [hse]
+    | timeout => trivial
+    | brk l rs1 => rw [h1] at ih; exact ih.elim
+    | cont l rs1 => rw [h1] at ih; exact ih.elim
+  · intro fv l hfv hl hfn
+    exact hML m s rs env fv l D hrel (hvs fv hfv) hfn (hvs l hl)
+
+/-! ## All Go builtins of the fragment, by induction on the reference fuel -/
+
+theorem hclaims : ∀ n, (∀ j, j < n → FClaimE j ∧ FClaimU j) →
+    (∀ name, okB name → BClaim n name) ∧ AClaim n ∧ MArrClaim n ∧ MListClaim n
+  | 0, _ => by
+    refine ⟨fun name _ m s rs env vs D _ _ => ?_, fun m s rs env fv vs D _ _ _ _ => ?_,
+      fun m s rs env fv r i cnt D _ _ _ => ?_, fun m s rs env fv l D _ _ _ _ => ?_⟩
+    · rw [Ref.applyFn]; trivial
+    · rw [Ref.applyValues]; trivial
+    · rw [Ref.mapArr]; trivial
+    · rw [Ref.mapList]; trivial
+  | n + 1, hlow => by
+    obtain ⟨hB, hA, hMA, hML⟩ := hclaims n (fun j hj => hlow j (Nat.lt_succ_of_lt hj))
+    refine ⟨fun name hn => ?_, aclaim_succ (hlow n (Nat.lt_succ_self n)).2 hB, marr_succ hA hMA, mlist_succ hA hML⟩
+    rcases hn with hn | hn | hn | hn
+    · exact bclaim_fo hn
+    · subst hn; exact bclaim_force (fun j hj => (hlow j (Nat.lt_succ_of_lt hj)).1)
+    · subst hn; exact bclaim_apply hA
+    · subst hn; exact bclaim_map hMA hML
+
+/-- a call whose callee symbol denotes `force`, `apply` or `map` -/
+theorem fclaimH {k : Nat} (hlow : ∀ j, j < k + 1 → FClaimE j ∧ FClaimU j) (hA : FClaimA (k + 1)) :
+    ∀ name, hoB name → FClaimH k name :=
+  fun name hn => fclaimH_of_bclaim hA ((hclaims (k + 1) hlow).1 name (Or.inr hn))
+
 end ZygoVerif.Sim
